@@ -573,12 +573,18 @@ where
         if have == 0 {
             let left = u64_to_clamped_usize(self.left);
             let want_bytes = std::cmp::min(want * sample_size, left);
-            assert_ne!(want_bytes, 0);
+            if want_bytes == 0 {
+                // No data at all, so repeating it will never produce anything.
+                return Ok(BlockRet::EOF);
+            }
             let mut buffer = vec![0; want_bytes];
             let n = self.file.read(&mut buffer)?;
             assert!(n <= left);
-            // Can't get EOF here.
-            assert_ne!(n, 0);
+            if n == 0 {
+                return Err(Error::msg(format!(
+                    "unexpected EOF in SigMF data with {left} bytes left"
+                )));
+            }
             self.left -= n as u64;
             self.buf.extend(&buffer[..n]);
         }
